@@ -42,7 +42,12 @@ fn decode(s: &mut Source) -> Case {
     let q0 = Term::Var(0);
     let q1 = Term::Var(1);
     let ints = |s: &mut Source, n: usize| -> Vec<i64> { (0..n).map(|_| s.range(0, 5)).collect() };
-    let mut prefix = match s.weighted(&[3, 4, 2, 2, 1]) {
+    let mut prefix = match s.weighted(&[3, 4, 2, 2, 1, 2, 1, 2]) {
+        // x unbound, or aliased to another unbound variable, when the project goal is reached
+        5 => vec![],
+        6 => vec![Goal::Eq(x.clone(), y.clone())],
+        // nested structure whose inner variable is bound afterwards (deep walk needed)
+        7 => vec![Goal::Eq(x.clone(), Term::list(vec![Term::Int(1), Term::list(vec![y.clone()]), Term::Cmp(crate::ast::Kind::Pair, vec![y.clone(), Term::Int(0)])])), Goal::Eq(y.clone(), Term::Int(s.range(0, 3)))],
         0 => vec![Goal::Eq(x.clone(), Term::Int(s.range(0, 5)))],
         1 => {
             let n = 1 + s.below(4);
@@ -61,7 +66,11 @@ fn decode(s: &mut Source) -> Case {
     let two = s.flag(50);
     let vars = if two { vec![X, Y] } else { vec![X] };
     let nonrel = |s: &mut Source| -> Goal {
-        match s.below(4) {
+        match s.below(8) {
+            // relational uses of the projected variable, and a structural groundness test
+            4 => Goal::Eq(x.clone(), Term::Int(s.range(0, 5))),
+            5 => Goal::Eq(q0.clone(), x.clone()),
+            6 | 7 => Goal::NonRel(NonRel::IsGroundTerm(x.clone())),
             0 => Goal::NonRel(NonRel::SqEq(x.clone(), q0.clone())),
             1 => Goal::NonRel(NonRel::AddConst(x.clone(), s.range(0, 3), q0.clone())),
             2 => Goal::NonRel(NonRel::IsGroundInt(x.clone())),
